@@ -1,0 +1,20 @@
+//go:build verif
+
+package vm
+
+import "github.com/go-python/gpython/py"
+
+// VerifInstr, when set, is called before every instruction is
+// dispatched. pc is the offset of the opcode in frame.Code.Code.
+// Only compiled with -tags verif.
+var VerifInstr func(frame *py.Frame, pc int32, opcode OpCode, arg int32)
+
+func verifInstr(frame *py.Frame, opcode OpCode, arg int32) {
+	if f := VerifInstr; f != nil {
+		pc := frame.Lasti - 1
+		if opcode.HAS_ARG() {
+			pc -= 2
+		}
+		f(frame, pc, opcode, arg)
+	}
+}
